@@ -60,6 +60,18 @@ CHECKS = {
              "character-class precondition forks the path.",
         technique="CrossHair symbolic execution (z3) of the real specifier logic over an executable SQL model",
         ref='4 C08'),
+    'C09': dict(
+        text="Bounded symbolic model checking of the real form search: _find_helper, the form conditions "
+             "of find_entries/find_senses/find_synsets (SQL on the model) and the normalized_form column "
+             "written by _insert_forms. Written forms, parts of speech, the query, the pos filter and the "
+             "forms a custom lemmatizer proposes are chosen by symbolic index from a pool with case / "
+             "diacritic / suffix variants; every configuration normalizer x search_all_forms x lemmatizer "
+             "(none, custom with two pos groups, Morphy) is a partition; results are compared with the "
+             "documented exact -> normalized -> lemmatized procedure.",
+        note=NOTE_COMMON + DB_NOTE + "The real normalize_form is used (concrete strings); its Unicode "
+             "behaviour beyond the pool is outside. Two words per lexicon.",
+        technique="CrossHair symbolic execution (z3) of the real search logic over an executable SQL model",
+        ref='4 C09'),
     'C10': dict(
         text="Bounded symbolic model checking of the real navigation methods (Sense.word/synset, "
              "Word.senses/synsets, Synset.senses/words/lemmas, translate, ==/hash) over the SQL model: "
